@@ -17,6 +17,8 @@ drivers (Packet.unpack_impl / pack_impl and the two generated-code templates):
      numeric conversions are applied to stack offsets only;
  (f) everything that can raise inside a driver is inside the try (descriptor
      sync hooks included);
+ (h) a value of the wrong type fails inside the field's own pack call (typed chunks), and a
+     field that cannot be decoded fails inside its own unpack call (strict decode, C04);
  (g) a rejected Fragments.insert (colliding positions on pack) leaves the cursor where the
      failing field began (C11 clause 7).
 """
@@ -117,10 +119,14 @@ def check_packet_unpack(ctx, rule):
         if ok:
             ctx.holds(rule, fi, st, 'returns None under silent, re-raises otherwise', h.lineno)
     # call: pkt.unpack_impl(raw, offset, ...)
-    calls = [n for n in ast.walk(tr) if isinstance(n, ast.Call) and isinstance(n.func, ast.Attribute) and n.func.attr == 'unpack_impl']
+    calls = []
+    for p_ in paths:
+        for e_ in p_.calls(lambda e: isinstance(e.call.func, ast.Attribute) and e.call.func.attr == 'unpack_impl'):
+            if canon(e_.call) not in [canon(x) for x in calls]:
+                calls.append(e_.call)
     for c in calls:
         a = D.args_of(c, ['raw', 'offset'])
-        st = stmt_text(c)
+        st = canon(c)[:140]
         if a is None or canon(a['raw']) != 'raw' or canon(a['offset']) != 'offset':
             ctx.violation(rule, fi, st, 'unpack_impl is not called with (raw, offset) as given by the caller', c.lineno)
         else:
@@ -254,6 +260,68 @@ def _is_int_expr(a):
     return False
 
 
+def check_typed_chunks(ctx, rule='R7-typed-chunks'):
+    """a value of the wrong type fails inside the field's own pack call: what a pack strategy
+    appends is the result of a type-enforcing operation (struct pack, to_bytes, concatenation
+    with a bytes object), never the bare packet value -- a str / list chunk is accepted by the
+    buffer and only fails in tobytes(), outside every handler"""
+    import ast as _ast
+    from ..model import pack_strategies
+    repo = ctx.repo
+    n = 0
+    for ci, fi, s in pack_strategies(repo):
+        w = repo.walker(max_paths=ctx.max_paths)
+        seen = set()
+        for p in w.paths(fi.node, cls=ci):
+            if p.raises():
+                continue
+            for e in p.all_effects():
+                if e.kind == 'call' and isinstance(e.call.func, _ast.Attribute) and canon(e.call.func.value) == 'fragments' and e.call.func.attr in ('append', 'extend') and e.call.args:
+                    v = e.call.args[0]
+                    key = (id(e.node), canon(v))
+                    if key in seen:
+                        continue
+                    seen.add(key)
+                    n += 1
+                    ok, why = typed_chunk(v)
+                    st = '[%s] %s: fragments.%s(%s)' % (ci.name, fi.qual, e.call.func.attr, canon(v)[:90])
+                    if ok:
+                        ctx.holds(rule, fi, st, why, e.lineno)
+                    elif ok is False:
+                        ctx.violation(rule, fi, st, why, e.lineno)
+                    else:
+                        ctx.undecided(rule, fi, st, why, e.lineno)
+    ctx.unit('appended_chunks', n)
+
+
+def typed_chunk(v):
+    import ast as _ast
+    if isinstance(v, _ast.Constant) and isinstance(v.value, bytes):
+        return True, 'bytes constant'
+    if isinstance(v, _ast.Call):
+        f = v.func
+        if isinstance(f, _ast.Attribute) and f.attr in ('pack', 'to_bytes', 'encode', 'decode', 'tobytes', 'join'):
+            return True, 'result of %s (bytes, raises on a wrong type)' % f.attr
+        if isinstance(f, _ast.Name) and f.id in ('bytes', 'StructPack'):
+            return True, 'result of %s' % f.id
+        if isinstance(f, _ast.Name) and f.id == 'getattr':
+            return False, 'the bare packet value reaches the buffer: a str / list / None value is accepted here and only fails in tobytes(), outside the per-field handlers, as a bare TypeError'
+    if isinstance(v, _ast.BinOp) and isinstance(v.op, _ast.Add):
+        for side in (v.left, v.right):
+            if (isinstance(side, _ast.Constant) and isinstance(side.value, bytes)) or (isinstance(side, _ast.Attribute) and canon(side.value) == 'self'):
+                return True, 'concatenated with a bytes object of the field (TypeError for a non-bytes value, inside the field call)'
+        return None, 'concatenation of two run-time values'
+    if isinstance(v, _ast.IfExp):
+        a, b = typed_chunk(v.body), typed_chunk(v.orelse)
+        for r in (a, b):
+            if r[0] is False:
+                return r
+        return (True, 'both alternatives typed') if a[0] and b[0] else (None, 'an alternative is not classified')
+    if isinstance(v, _ast.Subscript):
+        return typed_chunk(v.value)
+    return None, 'cannot classify the appended value %s' % canon(v)[:60]
+
+
 def check_packet_pack(ctx, rule='R7-packet-pack'):
     fi = ctx.repo.cls('Packet').methods.get('pack')
     if fi is None:
@@ -297,6 +365,11 @@ def check(ctx):
                     ctx.violation('R7-name-binding', sh['template'].func, '%s loop block: %s' % (d.kind, stmt_text(sh['assign'])), '"name" is bound to tuple slot %s; the field name is slot %d' % (sh['name_pos'], layout['name']), sh['template'].lineno)
     check_packet_unpack(ctx, 'R7-packet-unpack')
     check_packet_pack(ctx)
+    check_typed_chunks(ctx)
+    # (h) a field that cannot be decoded fails inside its own call (strict decode, C04 rule R4):
+    # otherwise the failure is attributed to a later field at a later offset
+    from .c04 import check as c04_check
+    c04_check(ctx)
     # colliding positions on pack: the rejected insert must leave the cursor where the field began
     from .c11 import check as c11_check
     c11_check(ctx, parts=('atomic',))
